@@ -115,7 +115,7 @@ def cases(draw):
     eff = H.sdl_view(spec) if mode == "sdl" else spec
     reqs = []
     for _ in range(draw(st.integers(1, 3))):
-        r = draw(GD.requests(eff))
+        r = draw(GD.requests(eff, null_hazards=("argument",)))
         r["world"] = {"salt": draw(st.integers(0, 10 ** 6)), "p_err": draw(st.sampled_from([0, 5, 11, 11])),
                       "p_null": draw(st.sampled_from([0, 4, 7, 7])), "p_null_item": draw(st.sampled_from([0, 3, 6]))}
         reqs.append(r)
